@@ -8,6 +8,11 @@ props = [json.loads(l) for l in open(V / "properties.jsonl")]
 
 # id -> (category, technique, level text, level note, design ref)
 CHECKS = {
+ "C06": ("model_checking",
+         "TLA+ specification of NumPy broadcasting of batch shapes, the per-element (x slice, condition slice) index maps and the key assignment of the distribution vectoriser (Vectorize.tla), model-checked with TLC over a shape lattice; every configuration TLC prints is replayed on real distributions and each output element compared with the unbatched public call on the slices TLC designates",
+         "TLC enumerates (event shape rank 0-2) x (condition shape none / rank 0-2) x (batch shapes of x and of the condition incl. size-1 axes, zero extents, pairs that must be rejected) x sample_shapes, checks the index maps are total, onto and aligned and the key map injective, and writes the maps out; the real log_prob / sample / sample_and_log_prob must have TLC's result shapes, every element must equal the unbatched call on the designated slices, draws must be pairwise distinct and reproducible, non-broadcastable pairs must raise.",
+         "Reference values are the same distribution's public methods called with exact (unbatched) shapes. The key schedule (element k uses split(key, n)[k]) is implementation-layer: a different but fresh schedule gives a drift note, not a violation.",
+         "DESIGN.md 4.7, 5 (C06)"),
  "C08": ("model_checking",
          "TLA+ specification of the combinators with exact integer semantics (Combinators.tla: arrays as C-order integer sequences, dyadic affine / additive-condition / permutation leaves, a builder machine over a shape lattice) model-checked with TLC; every program TLC prints is built from the real classes and all four methods compared bit for bit with TLC's integers",
          "TLC enumerates every composition the builder machine grows (depth 1 exhaustively in quick, depth 2 = 1.8e5 programs in thorough, plus simulated depth-3 programs) over leaf kinds x shape lattice x every valid axis incl. negative ones x Partial index kinds x mapped/broadcast Vmap x condition axes, and checks DeclaredShapeIsSemantic, RoundTrip, LogDetsOpposite, MergeChainsSame, InvertSwaps on each; each program is an implementation test whose expected outputs, log2-dets and shapes TLC computed from the definitions (like jnp.stack / slice by slice / only the indexed entries). The shape formulas as found at the pinned commit are refuted by TLC (Stack / Vmap negative axes; repaired by fix: commits).",
